@@ -233,7 +233,7 @@ Proof.
       pose proof (find_child K V p pi cs sep ch0 (tr s) Hnd Hfp (nth_error_In _ _ Hg)) as Hf2.
       rewrite Hn in Hf2. congruence. }
     subst ch0.
-    match type of HE with bind ?e _ = _ => destruct e as [sep'|] eqn:Hsep; [cbn [bind] in HE|discriminate HE] end.
+    cbn [bind] in HE. set (sep' := if index =? 0 then if ltb (key_of o) sep then key_of o else sep else sep) in HE.
     assert (Hnc : nid child = c) by (eapply find_nid; eauto).
     destruct (isplit order (fresh s) child) as [[lft rgt]|] eqn:Hsp.
     + destruct (ismallest rgt) as [rs|] eqn:Ers; [cbn [bind] in HE|discriminate HE].
